@@ -24,10 +24,12 @@ type Prop interface {
 }
 
 type LeanQ struct {
-	Driver string `json:"driver"` // spec | impl
+	Driver string `json:"driver"` // spec | impl | peg
 	Line   string `json:"line"`
 	Expect string `json:"expect"`
 	What   string `json:"what"`
+	Oracle bool   `json:"oracle,omitempty"` // a difference is a violation of the property (always so for driver spec)
+	Skip   string `json:"skip,omitempty"`   // an answer the model gives when the input is outside what it models: counted, not compared
 }
 
 type Record struct {
@@ -113,6 +115,27 @@ func (d *Driver) Ask(line string) (string, error) {
 	return strings.TrimRight(ans, "\n"), err
 }
 
+var ErrDriverTimeout = fmt.Errorf("lean driver did not answer in time")
+
+// AskTimeout is Ask with a deadline; after a timeout the driver is unusable (kill and restart it).
+func (d *Driver) AskTimeout(line string, limit time.Duration) (string, error) {
+	type res struct {
+		ans string
+		err error
+	}
+	ch := make(chan res, 1)
+	go func() {
+		a, e := d.Ask(line)
+		ch <- res{a, e}
+	}()
+	select {
+	case r := <-ch:
+		return r.ans, r.err
+	case <-time.After(limit):
+		return "", ErrDriverTimeout
+	}
+}
+
 func (d *Driver) Close() {
 	d.in.Flush()
 	d.cmd.Process.Kill()
@@ -151,6 +174,7 @@ type RunOpts struct {
 	From      int
 	SpecExe   string
 	ImplExe   string
+	PegExe    string
 	ReplayDir string
 	Self      string // path of this executable
 	Workers   int
@@ -271,6 +295,9 @@ func RunParent(o RunOpts) Summary {
 		if name == "impl" {
 			path = o.ImplExe
 		}
+		if name == "peg" {
+			path = o.PegExe
+		}
 		d, err := StartDriver(path)
 		if err != nil {
 			fmt.Fprintf(os.Stderr, "cannot start lean driver %s: %v\n", path, err)
@@ -306,15 +333,27 @@ func RunParent(o RunOpts) Summary {
 		}
 		for _, q := range rec.Q {
 			d := getDriver(q.Driver)
-			ans, err := d.Ask(q.Line)
+			ans, err := d.AskTimeout(q.Line, 15*time.Second)
 			sum.LeanAsked++
+			if err == ErrDriverTimeout {
+				// the model is an executable specification, not an efficient one (e.g. a PEG interpreter
+				// without memoisation on deeply nested filters): count, restart the driver, go on
+				sum.Dist["lean:"+q.Driver+":timeout"]++
+				d.Close()
+				delete(drivers, q.Driver)
+				continue
+			}
 			if err != nil {
 				fmt.Fprintf(os.Stderr, "lean driver %s failed: %v\n", q.Driver, err)
 				os.Exit(2)
 			}
+			if q.Skip != "" && ans == q.Skip {
+				sum.Dist["lean:"+q.Driver+":unmodelled"]++
+				continue
+			}
 			if ans != q.Expect {
 				kind := "mismatch"
-				if q.Driver == "spec" {
+				if q.Driver == "spec" || q.Oracle {
 					// the specification is the oracle of this property: a difference is a violation
 					kind = "violation"
 				}
